@@ -555,6 +555,8 @@ class NumpyModel:
                 raise Unsupported(f"array store of {v!r}")
             Vv, vk = None, s[1]
             sval = s[0]
+            if vk == "f" and isinstance(v, (int, float)) and not isinstance(v, bool):
+                st.assume(z3.Not(z3.Or(is_inf(sval), is_ninf(sval), is_nan_r(sval))))  # a numeric literal is a finite number
         k = A.kind
         old = A.elems
         full = [self._is_full(c) for c in comps]
@@ -868,6 +870,22 @@ class NumpyModel:
             if s is not None and fn == "atleast_1d":
                 return self.new(ex, s[1], (z3.IntVal(1),), z3.K(z3.IntSort(), s[0]))
             return NotImplemented
+        if fn == "concatenate" and len(args) == 1 and isinstance(args[0], Ref) and isinstance(st.heap[args[0].id], ListObj) \
+                and isinstance(st.heap[args[0].id].t, TArr) and st.heap[args[0].id].t.rank == 1:
+            # concatenation of a symbolic list of vectors (under-specified, sound): every element of the result is an element of one
+            # of the vectors (block index / offset given by two Skolem arrays); length and order are not specified
+            L = st.heap[args[0].id]
+            ta = L.t
+            n = st.fresh_int("catn")
+            blk = st.fresh_const("catblk", z3.ArraySort(z3.IntSort(), z3.IntSort()))
+            offi = st.fresh_const("catoff", z3.ArraySort(z3.IntSort(), z3.IntSort()))
+            R = st.fresh_const("catel", arr_sort(ta.kind, 1))
+            i = z3.Int("i!cat")
+            st.assume(n >= 0)
+            st.assume(z3.ForAll([i], z3.Implies(z3.And(0 <= i, i < n), z3.And(0 <= blk[i], blk[i] < L.n, 0 <= offi[i], offi[i] < ta.dim(L.elems[blk[i]]),
+                                                                           R[i] == ta.els(L.elems[blk[i]])[offi[i]])), patterns=[R[i]]))
+            ex.assumed.add("numpy.concatenate of a symbolic list of vectors: element-wise membership only (length/order unspecified)")
+            return self.new(ex, ta.kind, (n,), R)
         if not anyarr:
             return NotImplemented
         if fn in ("concatenate", "hstack") and isinstance(args[0], tuple) and all(_is_arr(ex, x) for x in args[0]):
